@@ -57,6 +57,16 @@ func StartKeygenCommon(taproot bool, group curve.Curve, participants []party.ID,
 			for _, k := range participants {
 				verificationSharesCopy[k] = group.NewPoint()
 			}
+		} else {
+			// a refresh must be run by exactly the parties holding a share of the key
+			if len(verificationShares) != helper.N() {
+				return nil, fmt.Errorf("keygen.StartKeygen: refresh needs all %d shareholders, got %d participants", len(verificationShares), helper.N())
+			}
+			for _, j := range helper.PartyIDs() {
+				if _, ok := verificationShares[j]; !ok {
+					return nil, fmt.Errorf("keygen.StartKeygen: participant %s has no verification share", j)
+				}
+			}
 		}
 
 		return &round1{
